@@ -1,13 +1,121 @@
 import Hms
+import Hms.Mod.Graph
+import Hms.Mod.Link
+import Hms.Mod.Order
 import Driver.Decode
 /-! Driver commands of the "Modules" area. `dispatchModules cmd payload` answers `some line` for the
-commands it owns and `none` otherwise. -/
+commands it owns and `none` otherwise.
+
+* `modgraph (graph (mod x<name> (imports (imp x<target> (x<item> n|t)…)…) (items (fn|glob|type x<name> 0|1)…)
+  (inits (x<name> x<value>)…) (bodies (x<fn> (say x<label> x<g>…) (bump x<g>) (call x<f>)…)…))…)`
+  → `D=<class>@<module>#<idx>,… | FRAG=… | CLASH=… | ILLEGAL=<module>#<idx>,… | OUT=x<hex>|NONE |
+     LINKED=same|differs | INIT=<module>:<#SetGlob>:<callees joined by +>:<ends with Return>;…`
+* `mangle <module> <name> <counter>` → the mangled storage name under the fixed scheme.
+-/
 namespace Driver
-open Hms
+open Hms Hms.Mod
+
+namespace ModCmds
+
+namespace Dec
+
+def str? (s : Sexp) : Option String := s.asStr?
+
+def impItem? : Sexp → Option ImpItem
+  | .list [n, .atom "n"] => do pure ⟨← str? n, .normal⟩
+  | .list [n, .atom "t"] => do pure ⟨← str? n, .type⟩
+  | _ => none
+
+def import? : Sexp → Option Import
+  | .list (.atom "imp" :: tgt :: items) => do pure ⟨← str? tgt, ← items.mapM impItem?⟩
+  | _ => none
+
+def item? : Sexp → Option Item
+  | .list [.atom k, n, .atom p] => do
+    let kind ← match k with
+      | "fn" => some ItemKind.fn | "glob" => some ItemKind.glob | "type" => some ItemKind.type | _ => none
+    pure ⟨kind, ← str? n, p == "1"⟩
+  | _ => none
+
+def act? : Sexp → Option Act
+  | .list (.atom "say" :: l :: gs) => do pure (.say (← str? l) (← gs.mapM str?))
+  | .list [.atom "bump", g] => do pure (.bump (← str? g))
+  | .list [.atom "call", f] => do pure (.call (← str? f))
+  | _ => none
+
+def body? : Sexp → Option (String × List Act)
+  | .list (f :: acts) => do pure (← str? f, ← acts.mapM act?)
+  | _ => none
+
+def init? : Sexp → Option (String × String)
+  | .list [n, v] => do pure (← str? n, ← str? v)
+  | _ => none
+
+def module? : Sexp → Option Module
+  | .list [.atom "mod", n, .list (.atom "imports" :: imps), .list (.atom "items" :: items),
+      .list (.atom "inits" :: inits), .list (.atom "bodies" :: bodies)] => do
+    pure ⟨← str? n, ← imps.mapM import?, ← items.mapM item?, ← inits.mapM init?, ← bodies.mapM body?⟩
+  | _ => none
+
+def graph? : Sexp → Option Modules
+  | .list (.atom "graph" :: ms) => ms.mapM module?
+  | _ => none
+
+end Dec
+
+def diagS (d : Diag) : String :=
+  s!"{d.cls.name}@{d.module}#{match d.stmt with | some i => toString i | none => "-"}"
+
+def sortStrings (xs : List String) : List String := (xs.toArray.qsort (· < ·)).toList
+
+/-- All permutations of a (short) list. -/
+def perms {α} : List α → List (List α)
+  | [] => [[]]
+  | x :: xs => (perms xs).flatMap fun p => (List.range (p.length + 1)).map fun i => p.take i ++ [x] ++ p.drop i
+
+def cmdModGraph (payload : String) : String :=
+  match Sexp.parse payload >>= Dec.graph? with
+  | none => "BAD-INPUT"
+  | some all =>
+    let diags := sortStrings ((analyze all).map diagS)
+    let ms0 := all
+    let illegal := sortStrings (ms0.flatMap fun m =>
+      (List.zip m.imports (List.range m.imports.length)).filterMap fun (imp, i) =>
+        if stmtIllegal ms0 m imp then some s!"{m.name}#{i}" else none)
+    let ms := analysed all
+    let fuel := 20000
+    let out := runLex ms fuel
+    let outS := match out with | some o => Sexp.hexOfString o | none => "NONE"
+    let ps := perms ms
+    let linkedSame := ps.all fun ord => ps.all fun any => runLinked ms ord any fuel == out
+    let byName := (ms.toArray.qsort fun a b => a.name < b.name).toList
+    let initS := ";".intercalate (byName.map fun m =>
+      let code := initOf ms "main" m
+      let nSet := (code.filter fun i => match i with | .setGlob .. => true | _ => false).length
+      let callees := sortStrings (code.filterMap fun i => match i with | .callInit o => some o | _ => none)
+      let endsRet := code.getLast? == some .ret
+      s!"{m.name}:{nSet}:{"+".intercalate callees}:{endsRet}")
+    let startupOK := ps.all fun ord =>
+      let ev := startup ord "main"
+      ev.getLast? == some .main && ms.all fun m => ev.count (.init m.name) == 1
+    let execs := (treeExecs ms (ms.length + 1) [] "main").1
+    s!"D={",".intercalate diags} | FRAG={fragC15 all} | CLASH={!noCrossModuleClash ms} | CLOSED={closed ms} | ILLEGAL={",".intercalate illegal} | OUT={outS} | LINKED={if linkedSame then "same" else "differs"} | INIT={initS} | STARTUP={startupOK} | EXECS={"+".intercalate execs}"
+
+/-- `mangle x<module> x<name> <counter>` → fixed-scheme storage name and the unfixed one. -/
+def cmdMangle (payload : String) : String :=
+  match payload.splitOn " " with
+  | [m, n, c] =>
+    match (Sexp.atom m).asStr?, (Sexp.atom n).asStr?, c.toNat? with
+    | some m, some n, some c => s!"FIXED={Sexp.hexOfString (mangleVarFixed m n c)} | UNFIXED={Sexp.hexOfString (mangleVarUnfixed m n c)}"
+    | _, _, _ => "BAD-INPUT"
+  | _ => "BAD-INPUT"
+
+end ModCmds
 
 def dispatchModules (cmd : String) (payload : String) : Option String :=
-  let _ := payload
   match cmd with
+  | "modgraph" => some (ModCmds.cmdModGraph payload)
+  | "mangle" => some (ModCmds.cmdMangle payload)
   | _ => none
 
 end Driver
